@@ -238,6 +238,7 @@ PROPS["C09"]["verus"]["opencat"] = OPENCAT_BLOCKS + ["catalog_str", "catalog_int
 PROPS["C09"]["probes"] = dict({b: ["catalognull"] for b in OPENCAT_BLOCKS}, **{"StringPoolBuilder::build_from_data": ["zerorc"], "StringPool::decref": ["dangling"], "ValueRef::remove": ["dangling"]})
 PROPS["C08"]["probes"] = {"StringPool::decref": ["dangling"], "ValueRef::remove": ["dangling"]}
 PROPS["C02"]["probes"] = {"StringPoolBuilder::build_from_data": ["zerorc"]}
+PROPS["C06"]["probes"] = {"Package::create_table_with_name": ["enumsemi"]}
 PROPS["C07"]["probes"] = {"Category::validate": ["category"]}
 PROPS["C14"]["probes"] = {"CodePage::encode": ["encode"], "CodePage::decode": ["bom"]}
 PROPS["C18"]["probes"] = {"timestamp_from_system_time": ["time"], "system_time_from_timestamp": ["time"],
